@@ -705,7 +705,7 @@ fn run_case(prop: &str, t: Template, i: u64, rng: &mut Rng, out: &mut Outcome, d
 /// In-process faults inside the two explicit transactions (snapshot creation, restore):
 /// an injected storage error must roll the transaction back completely, and a panic that unwinds
 /// through the library must leave the file recoverable (re-open => state before the call).
-fn in_process_txn_faults(prop: &str, i: u64, rng: &mut Rng, out: &mut Outcome, dir: &Path) {
+pub fn in_process_txn_faults(prop: &str, i: u64, rng: &mut Rng, out: &mut Outcome, dir: &Path) {
     use mdk_storage_traits::MdkStorageProvider;
     use openmls_traits::OpenMlsProvider;
     if i % 5 == 4 {
